@@ -338,7 +338,7 @@ def expr_len_tag(t, body, roots, self_local, seen):
     return (0, False)
 
 
-def r17_2(ctx, run, ba, rule='R17.2'):
+def r17_2(ctx, run, ba, rule='R17.2', floor=5):
     """Back-patch positions are relative to a length snapshot taken inside the call."""
     n = 0
     seen = set()
@@ -363,7 +363,8 @@ def r17_2(ctx, run, ba, rule='R17.2'):
         else:
             run.violation(rule, b.path, d, f'the position written/resized is not derived from the buffer length observed inside the call ({why}): with bytes already in the buffer '
                           'it lands on the caller\'s data instead of the newly appended area', loc)
-    run.floor(rule, 'positional writes into output buffers', n, 5)
+    if floor:
+        run.floor(rule, 'positional writes into output buffers', n, floor)
     return n
 
 
